@@ -118,6 +118,13 @@ def turn_held(body, s1, s2):
         if "tokio::sync::Mutex::lock(self." not in pv:
             continue
         drops = [b for b in range(body.n) if body.term(b)["k"] == "drop" and body.term(b)["p"]["l"] == i and not body.term(b)["p"]["pr"] and not body.blocks[b]["cleanup"]]
+        # an explicit `drop(guard)` (or any other move of the guard out of its local) releases the turn as well
+        for c in body.calls:
+            if any(a["c"] == "move" and a["p"]["l"] == i and not a["p"]["pr"] for a in c.args) and not body.blocks[c.blk]["cleanup"]:
+                drops.append(c.blk)
+        for b2, _, st in body.statements():
+            if st["k"] == "assign" and st["r"]["k"] == "use" and st["r"]["o"]["c"] == "move" and st["r"]["o"]["p"]["l"] == i and not st["r"]["o"]["p"]["pr"] and not body.blocks[b2]["cleanup"]:
+                drops.append(b2)
         # after the guard is dropped the write must not be reachable any more, and no drop lies between check and write
         after = body.reachable(drops) if drops else set()
         between = body.reachable([s1.call.blk]) & body.bwd_reachable([s2.call.blk])
